@@ -1,3 +1,4 @@
+import Agd.Tie.TrC03
 import Agd.Lemmas.Device
 import Agd.Tie.C03
 /-!
@@ -419,3 +420,44 @@ end Agd.Device
 #print axioms Agd.Device.http_doh_only_needs_basic_auth
 #print axioms Agd.Device.sni_orig_counterexample
 #print axioms Agd.Device.sni_label_is_first_label
+#print axioms Agd.Tie.TrC03.translation_complete
+#print axioms Agd.Tie.TrC03.supportsDeviceID_tr
+#print axioms Agd.Tie.TrC03.supportsDeviceID_iff
+#print axioms Agd.Tie.TrC03.dnscrypt_unsupported
+#print axioms Agd.Tie.TrC03.isStdEncrypted_tr
+#print axioms Agd.Tie.TrC03.authenticate_tr
+#print axioms Agd.Tie.TrC03.authenticate_accepts_iff
+#print axioms Agd.Tie.TrC03.dohOnly_never_elsewhere
+#print axioms Agd.Tie.TrC03.bad_password_refused
+#print axioms Agd.Tie.TrC03.authenticate_no_panic
+#print axioms Agd.Tie.TrC03.deviceData_plain_only_edns
+#print axioms Agd.Tie.TrC03.deviceData_encrypted_ignores_edns
+#print axioms Agd.Tie.TrC03.srvReqInfo_doh_first
+#print axioms Agd.Tie.TrC03.srvReqInfo_sni
+#print axioms Agd.Tie.TrC03.srvReqInfo_no_panic
+#print axioms Agd.Tie.TrC03.doh_userinfo_first
+#print axioms Agd.Tie.TrC03.doh_no_userinfo_url
+#print axioms Agd.Tie.TrC03.dohURL_structure
+#print axioms Agd.Tie.TrC03.splitListN_ne_nil
+#print axioms Agd.Tie.TrC03.goSplit_ne_nil
+#print axioms Agd.Tie.TrC03.pathElements_eq
+#print axioms Agd.Tie.TrC03.pathElements_no_panic
+#print axioms Agd.Tie.TrC03.peSpec_ok
+#print axioms Agd.Tie.TrC03.matchDomain_eq
+#print axioms Agd.Tie.TrC03.matchDomain_tr
+#print axioms Agd.Tie.TrC03.cliSrvName_structure
+#print axioms Agd.Tie.TrC03.isLikelyExtHumanID_iff
+#print axioms Agd.Tie.TrC03.isLikelyExtHumanID_tr
+#print axioms Agd.Tie.TrC03.parseDeviceData_structure
+#print axioms Agd.Tie.TrC03.parseExtHumanID_no_panic
+#print axioms Agd.Tie.TrC03.parseExtHumanID_parts
+#print axioms Agd.Tie.TrC03.parseExtHumanID_short
+#print axioms Agd.Tie.TrC03.deviceByExtID_structure
+#print axioms Agd.Tie.TrC03.deviceByExtID_panic_iff
+#print axioms Agd.Tie.TrC03.deviceFromDB_by_id
+#print axioms Agd.Tie.TrC03.deviceFromDB_by_ext
+#print axioms Agd.Tie.TrC03.deviceFromDB_no_id
+#print axioms Agd.Tie.TrC03.deviceByAddrs_structure
+#print axioms Agd.Tie.TrC03.dedicated_never_linked
+#print axioms Agd.Tie.TrC03.newDeviceResult_nil_iff
+#print axioms Agd.Tie.TrC03.isProfileDBNotFound_eq
